@@ -4,7 +4,7 @@ trusted models of the few external helpers the simplifier calls."""
 import z3
 from pyvc import values, vcrt
 from pyvc.values import ClassModel, Theory, SV, SSeq, SInt, SReal, SStr, SBool, mk_int, mk_bool, mk_str, truth
-from pyvc.core import ctx, OutOfSubset
+from pyvc.core import define_rec, ctx, OutOfSubset
 
 CM = ClassModel
 
@@ -66,9 +66,8 @@ def field(t, names, f):
     return r
 
 
-def tdiv(a, b):
-    """Fortran integer division: truncation toward zero (b != 0)"""
-    return z3.If(a >= 0, z3.If(b > 0, a / b, -(a / (-b))), z3.If(b > 0, -((-a) / b), (-a) / (-b)))
+from . import arith                     # noqa: E402
+from .arith import tdiv, MUL, DIV       # noqa: E402
 
 
 # uninterpreted pieces of the semantics
@@ -80,55 +79,57 @@ realof = z3.Function('realof', z3.StringSort(), z3.RealSort())     # value denot
 realstr = z3.Function('realstr', z3.RealSort(), z3.StringSort())   # Python str(float)
 div0Z = z3.Function('div0Z', z3.IntSort(), z3.IntSort())
 
-valZ = z3.RecFunction('valZ', V, z3.IntSort())
-sumZ = z3.RecFunction('sumZ', VL, z3.IntSort())
-prodZ = z3.RecFunction('prodZ', VL, z3.IntSort())
-valR = z3.RecFunction('valR', V, z3.RealSort())
-sumR = z3.RecFunction('sumR', VL, z3.RealSort())
-prodR = z3.RecFunction('prodR', VL, z3.RealSort())
-
 _v = z3.Const('v!val', V)
 _l = z3.Const('l!val', VL)
 
 
-def _quotZ(t):
-    n, d = valZ(field(t, QUOTS, 'numerator')), valZ(field(t, QUOTS, 'denominator'))
-    return z3.If(d == 0, 0, tdiv(n, d))
-
-
-z3.RecAddDefinition(valZ, [_v],
-    z3.If(V.is_VInt(_v), V.ival(_v),
-    z3.If(V.is_VBool(_v), z3.If(V.bval(_v), 1, 0),
-    z3.If(T.recog['is_C_IntLiteral'](_v), T.acc['IntLiteral__value'](_v),
-    z3.If(is_any(_v, SUMS), sumZ(field(_v, SUMS, 'children')),
-    z3.If(is_any(_v, PRODS), prodZ(field(_v, PRODS, 'children')),
-    z3.If(is_any(_v, QUOTS), _quotZ(_v),
-    z3.If(is_any(_v, POWS), powZ(valZ(field(_v, POWS, 'base')), valZ(field(_v, POWS, 'exponent'))),
-          leafZ(_v)))))))))
-z3.RecAddDefinition(sumZ, [_l], z3.If(VL.is_nil(_l), 0, valZ(VL.hd(_l)) + sumZ(VL.tl(_l))))
-z3.RecAddDefinition(prodZ, [_l], z3.If(VL.is_nil(_l), 1, valZ(VL.hd(_l)) * prodZ(VL.tl(_l))))
-
-z3.RecAddDefinition(valR, [_v],
-    z3.If(V.is_VInt(_v), z3.ToReal(V.ival(_v)),
-    z3.If(V.is_VReal(_v), V.rval(_v),
-    z3.If(T.recog['is_C_IntLiteral'](_v), z3.ToReal(T.acc['IntLiteral__value'](_v)),
-    z3.If(T.recog['is_C_FloatLiteral'](_v), realof(T.acc['FloatLiteral__value'](_v)),
-    z3.If(is_any(_v, SUMS), sumR(field(_v, SUMS, 'children')),
-    z3.If(is_any(_v, PRODS), prodR(field(_v, PRODS, 'children')),
-    z3.If(is_any(_v, QUOTS), z3.If(valR(field(_v, QUOTS, 'denominator')) == 0, z3.RealVal(0),
-                                   valR(field(_v, QUOTS, 'numerator')) / valR(field(_v, QUOTS, 'denominator'))),
-    z3.If(is_any(_v, POWS), powR(valR(field(_v, POWS, 'base')), valR(field(_v, POWS, 'exponent'))),
-          leafR(_v))))))))))
-z3.RecAddDefinition(sumR, [_l], z3.If(VL.is_nil(_l), 0, valR(VL.hd(_l)) + sumR(VL.tl(_l))))
-z3.RecAddDefinition(prodR, [_l], z3.If(VL.is_nil(_l), 1, valR(VL.hd(_l)) * prodR(VL.tl(_l))))
-
-
 class Mode:
-    """value semantics selector: 'Z' integers with truncating division, 'R' reals"""
+    """Value semantics: 'Z' integers with truncating division, 'R' reals.  Each exists in two encodings of
+    multiplication/division (contracts/arith.py): algebraic (uninterpreted + proved laws; used by proofs) and
+    interpreted (used for counterexample search, and by C10 whose specification is plain integer arithmetic).
+    arith.interp() maps the algebraic spec functions to their interpreted twins."""
 
-    def __init__(self, m):
-        self.m = m
-        self.val, self.sumv, self.prodv = (valZ, sumZ, prodZ) if m == 'Z' else (valR, sumR, prodR)
+    def __init__(self, m, interpreted=False):
+        self.m, self.interpreted = m, interpreted
+        sfx = m + ('i' if interpreted else '')
+        S = z3.IntSort() if m == 'Z' else z3.RealSort()
+        self.S = S
+        self.val = z3.RecFunction('val' + sfx, V, S)
+        self.sumv = z3.RecFunction('sum' + sfx, VL, S)
+        self.prodv = z3.RecFunction('prod' + sfx, VL, S)
+        val, sumv, prodv = self.val, self.sumv, self.prodv
+        pw = powZ if m == 'Z' else powR
+        leaf = leafZ if m == 'Z' else leafR
+        num = (lambda t: t) if m == 'Z' else z3.ToReal
+        quot = self.div(val(field(_v, QUOTS, 'numerator')), val(field(_v, QUOTS, 'denominator')))
+        tail = z3.If(is_any(_v, SUMS), sumv(field(_v, SUMS, 'children')),
+               z3.If(is_any(_v, PRODS), prodv(field(_v, PRODS, 'children')),
+               z3.If(is_any(_v, QUOTS), quot,
+               z3.If(is_any(_v, POWS), pw(val(field(_v, POWS, 'base')), val(field(_v, POWS, 'exponent'))),
+                     leaf(_v)))))
+        if m == 'Z':
+            body = z3.If(V.is_VInt(_v), V.ival(_v),
+                   z3.If(V.is_VBool(_v), z3.If(V.bval(_v), 1, 0),
+                   z3.If(T.recog['is_C_IntLiteral'](_v), T.acc['IntLiteral__value'](_v), tail)))
+        else:
+            body = z3.If(V.is_VInt(_v), z3.ToReal(V.ival(_v)),
+                   z3.If(V.is_VBool(_v), z3.If(V.bval(_v), z3.RealVal(1), z3.RealVal(0)),
+                   z3.If(V.is_VReal(_v), V.rval(_v),
+                   z3.If(T.recog['is_C_IntLiteral'](_v), z3.ToReal(T.acc['IntLiteral__value'](_v)),
+                   z3.If(T.recog['is_C_FloatLiteral'](_v), realof(T.acc['FloatLiteral__value'](_v)), tail)))))
+        define_rec(val, [_v], body)
+        define_rec(sumv, [_l], z3.If(VL.is_nil(_l), 0, val(VL.hd(_l)) + sumv(VL.tl(_l))))
+        define_rec(prodv, [_l], z3.If(VL.is_nil(_l), 1, self.mul(val(VL.hd(_l)), prodv(VL.tl(_l)))))
+
+    def mul(self, a, b):
+        if self.interpreted:
+            return a * b
+        return MUL(self.m, a, b)
+
+    def div(self, a, b):
+        if self.interpreted:
+            return arith.interp(DIV(self.m, a, b))
+        return DIV(self.m, a, b)
 
     def num(self, x):
         """python/proxy number -> term of the mode's sort"""
@@ -142,8 +143,20 @@ class Mode:
             z3.ForAll([a, b], self.sumv(T.app(a, b)) == self.sumv(a) + self.sumv(b), patterns=[self.sumv(T.app(a, b))]),
         ]
 
+    def laws(self):
+        return [] if self.interpreted else arith.usable_laws(self.m)
+
+    def hints(self, terms):
+        return [] if self.interpreted else arith.hints(self.m, terms)
+
 
 MZ, MR = Mode('Z'), Mode('R')
+MZI, MRI = Mode('Z', True), Mode('R', True)
+valZ, sumZ, prodZ, valR, sumR, prodR = MZ.val, MZ.sumv, MZ.prodv, MR.val, MR.sumv, MR.prodv
+for _a, _i in ((MZ, MZI), (MR, MRI)):
+    for _n in ('val', 'sumv', 'prodv'):
+        arith.DECL_MAP[getattr(_a, _n).name()] = (getattr(_a, _n), getattr(_i, _n))
+
 
 
 def all_divisors_nonzero_axiom():
@@ -278,23 +291,27 @@ def is_expression(t):
 # n-ary nodes are operands (python numbers or expressions), recursively; and - the property's own
 # quantifier - every divisor evaluates to a non-zero value (mode specific).
 def _mk_wf(mode):
-    wf = z3.RecFunction('wf' + mode.m, V, z3.BoolSort())
-    wfl = z3.RecFunction('wfl' + mode.m, VL, z3.BoolSort())
-    z3.RecAddDefinition(wf, [_v],
+    sfx = mode.m + ('i' if mode.interpreted else '')
+    wf = z3.RecFunction('wf' + sfx, V, z3.BoolSort())
+    wfl = z3.RecFunction('wfl' + sfx, VL, z3.BoolSort())
+    define_rec(wf, [_v],
         z3.If(z3.Or(V.is_VInt(_v), V.is_VReal(_v)), z3.BoolVal(True) if mode.m == 'R' else V.is_VInt(_v),
         z3.If(is_any(_v, SUMS + PRODS), wfl(field(_v, SUMS + PRODS, 'children')),
         z3.If(is_any(_v, QUOTS), z3.And(wf(field(_v, QUOTS, 'numerator')), wf(field(_v, QUOTS, 'denominator')),
                                         mode.val(field(_v, QUOTS, 'denominator')) != 0),
         z3.If(is_any(_v, POWS), z3.And(wf(field(_v, POWS, 'base')), wf(field(_v, POWS, 'exponent'))),
               z3.And(is_expression(_v), z3.Not(is_any(_v, ('LogicLiteral', 'StringLiteral') + (('FloatLiteral',) if mode.m == 'Z' else ())))))))))
-    z3.RecAddDefinition(wfl, [_l], z3.If(VL.is_nil(_l), True, z3.And(wf(VL.hd(_l)), wfl(VL.tl(_l)))))
+    define_rec(wfl, [_l], z3.If(VL.is_nil(_l), True, z3.And(wf(VL.hd(_l)), wfl(VL.tl(_l)))))
     mode.wf, mode.wfl = wf, wfl
     a, b = z3.Consts('a!wf b!wf', VL)
     mode.wf_lemmas = [z3.ForAll([a, b], wfl(T.app(a, b)) == z3.And(wfl(a), wfl(b)), patterns=[wfl(T.app(a, b))])]
 
 
-_mk_wf(MZ)
-_mk_wf(MR)
+for _m in (MZ, MR, MZI, MRI):
+    _mk_wf(_m)
+for _a, _i in ((MZ, MZI), (MR, MRI)):
+    for _n in ('wf', 'wfl'):
+        arith.DECL_MAP[getattr(_a, _n).name()] = (getattr(_a, _n), getattr(_i, _n))
 
 # ---- truthiness of operands: spec function for the __bool__ family -----------------------------------
 # (python numbers; IntLiteral.__bool__, LogicLiteral.__bool__ in loki; Sum/Product/QuotientBase.__bool__ in
@@ -303,7 +320,7 @@ _mk_wf(MR)
 truthy = z3.RecFunction('truthy', V, z3.BoolSort())
 allnz = z3.RecFunction('allnz', VL, z3.BoolSort())
 _ch = field(_v, SUMS, 'children')
-z3.RecAddDefinition(truthy, [_v],
+define_rec(truthy, [_v],
     z3.If(V.is_VInt(_v), V.ival(_v) != 0,
     z3.If(V.is_VBool(_v), V.bval(_v),
     z3.If(V.is_VReal(_v), V.rval(_v) != 0,
@@ -317,7 +334,7 @@ z3.RecAddDefinition(truthy, [_v],
     z3.If(is_any(_v, PRODS), allnz(field(_v, PRODS, 'children')),
     z3.If(is_any(_v, QUOTS), truthy(field(_v, QUOTS, 'numerator')),
           True)))))))))))))
-z3.RecAddDefinition(allnz, [_l], z3.If(VL.is_nil(_l), True, z3.And(truthy(VL.hd(_l)), allnz(VL.tl(_l)))))
+define_rec(allnz, [_l], z3.If(VL.is_nil(_l), True, z3.And(truthy(VL.hd(_l)), allnz(VL.tl(_l)))))
 
 
 def truth_hook(sv):
@@ -345,7 +362,7 @@ def zero_lemma(mode):
 
 def prove_zero_lemma(mode):
     from pyvc.core import prove_tree_induction
-    return prove_tree_induction(T, _P_zero(mode), _Q_zero(mode))
+    return prove_tree_induction(T, _P_zero(mode), _Q_zero(mode), lemmas=mode.laws())
 
 
 # ---- python `==` between expression nodes of statically unknown class -------------------------------
@@ -354,7 +371,8 @@ def prove_zero_lemma(mode):
 peq = z3.Function('peq', V, V, z3.BoolSort())
 _x, _y = z3.Consts('x!peq y!peq', V)
 PEQ_AXIOMS = [
-    z3.ForAll([_x, _y], z3.Implies(peq(_x, _y), z3.And(valZ(_x) == valZ(_y), valR(_x) == valR(_y))),
+    z3.ForAll([_x, _y], z3.Implies(peq(_x, _y), z3.And(valZ(_x) == valZ(_y), valR(_x) == valR(_y),
+                                                      MZI.val(_x) == MZI.val(_y), MRI.val(_x) == MRI.val(_y))),
               patterns=[peq(_x, _y)]),
     z3.ForAll([_x], peq(_x, _x), patterns=[peq(_x, _x)]),
 ]
@@ -370,13 +388,17 @@ T.veq = lambda a, b: peq(a, b)
 
 def lemmas_for(mode):
     return (mode.lemmas() + PEQ_AXIOMS + REAL_AXIOMS + mode.wf_lemmas + [zero_lemma(mode)]
-            + [_app_lemma(mode.prodv, lambda p, q: p * q, 'prod' + mode.m), ALLNZ_APP])
+            + [_app_lemma(mode.prodv, mode.mul, 'prod' + mode.m), ALLNZ_APP] + mode.laws())
 
 
 def ground_for(mode):
     from pyvc.core import ground_instances
     ax = PEQ_AXIOMS + REAL_AXIOMS
     return lambda terms: ground_instances(ax, terms)
+
+
+def interp_for(mode):
+    return arith.interp
 
 
 # ---- callee contracts as uninterpreted functions ------------------------------------------------------
@@ -391,13 +413,13 @@ class ValueContract:
     _cache = {}
 
     def __new__(cls, name, mode, negate=False):
-        key = (name, mode.m, negate)
+        key = (name, mode.m, mode.interpreted, negate)
         if key in cls._cache:
             return cls._cache[key]
         self = object.__new__(cls)
         cls._cache[key] = self
         self.name, self.mode, self.negate = name, mode, negate
-        self.F = z3.Function('F_%s_%s' % (name, mode.m), V, z3.IntSort(), V)
+        self.F = z3.Function('F_%s_%s' % (name, mode.m), V, z3.IntSort(), V)      # shared by both encodings
         x, s = z3.Const('x!vc', V), z3.Int('s!vc')
         rhs = -mode.val(x) if negate else mode.val(x)
         self.axiom = z3.ForAll([x, s], z3.Implies(mode.wf(x), z3.And(mode.val(self.F(x, s)) == rhs,
@@ -477,49 +499,26 @@ def _prove_app_lemma(fold, combine, extra=()):
 
 
 def _prove_prod_app(mode):
-    """calc-style proof of the step (nonlinear): the associativity instance is proved on pure variables and
-    handed to the solver as a ground hint, so that only congruence is needed on the RecFunction terms"""
-    from pyvc.core import _mk_solver, P_BIG
-    srt = z3.IntSort() if mode.m == 'Z' else z3.RealSort()
-    v, p, q, w = [z3.Const('nl!%s' % n, srt) for n in 'vpqw']
-    arith = lambda v, p, q, w: z3.Implies(p == q * w, v * p == (v * q) * w)
-    out = []
-    s = _mk_solver(P_BIG)
-    s.add(z3.Not(arith(v, p, q, w)))
-    out.append(('assoc-instance', str(s.check())))
+    # the step needs one associativity instance: given as a ground hint (the AC laws are never quantified)
     b = z3.Const('ind!b', VL)
     x, r = z3.Const('ind!x', V), z3.Const('ind!r', VL)
     fold = mode.prodv
-    stmt = lambda a: fold(T.app(a, b)) == fold(a) * fold(b)
-    s = _mk_solver(P_BIG)
-    s.add(z3.Not(stmt(VL.nil)))
-    out.append(('base', str(s.check())))
-    # step, split so that no query mixes RecFunction unfolding with nonlinear arithmetic:
-    #   U1: fold(app(cons(x,r),b)) == val(x)*fold(app(r,b))      (definitional)
-    #   U2: fold(cons(x,r))        == val(x)*fold(r)             (definitional)
-    #   PURE: P == Q*W and L == v*P and M == v*Q  =>  L == M*W   (arithmetic on plain variables)
-    # the step is the instance of PURE at P=fold(app(r,b)), Q=fold(r), W=fold(b), L, M as in U1, U2.
-    s = _mk_solver(P_BIG)
-    s.add(z3.Not(fold(T.app(VL.cons(x, r), b)) == mode.val(x) * fold(T.app(r, b))))
-    out.append(('step/U1', str(s.check())))
-    s = _mk_solver(P_BIG)
-    s.add(z3.Not(fold(VL.cons(x, r)) == mode.val(x) * fold(r)))
-    out.append(('step/U2', str(s.check())))
-    L, M = z3.Const('nl!L', srt), z3.Const('nl!M', srt)
-    s = _mk_solver(P_BIG)
-    s.add(p == q * w, L == v * p, M == v * q, z3.Not(L == M * w))
-    out.append(('step/PURE', str(s.check())))
-    return out
+    terms = [fold(T.app(VL.cons(x, r), b)) == mode.mul(mode.mul(mode.val(x), fold(r)), fold(b)),
+             mode.mul(mode.val(x), fold(T.app(r, b))), mode.mul(mode.val(x), mode.mul(fold(r), fold(b)))]
+    return _prove_app_lemma(fold, mode.mul, extra=mode.laws() + mode.hints(terms))
 
 
 ALLNZ_APP = _app_lemma(allnz, z3.And, 'allnz')
 
 
-def lemma_proofs():
+def lemma_proofs(modes=None):
     """(name, thunk -> [(case, 'unsat'|...)]) for every lemma the C08/C09/C10 proofs use"""
     out = []
-    for mode in (MZ, MR):
-        out.append(('zero-lemma[%s]: not truthy(v) and wf(v) => val(v) == 0' % mode.m,
+    for mode in (modes or (MZ, MR)):
+        if not mode.interpreted:
+            out.append(('arithmetic laws of mul/div[%s] on the interpreted operations' % mode.m,
+                        lambda mode=mode: arith.prove_laws(mode.m)))
+        out.append(('zero-lemma[%s]: not truthy(v) and wf(v) => val(v) == 0' % (mode.m + 'i' * mode.interpreted),
                     lambda mode=mode: prove_zero_lemma(mode)))
         out.append(('sum-app[%s]: sumv(app(a,b)) == sumv(a)+sumv(b)' % mode.m,
                     lambda mode=mode: _prove_app_lemma(mode.sumv, lambda p, q: p + q)))
@@ -529,3 +528,54 @@ def lemma_proofs():
                     lambda mode=mode: _prove_app_lemma(mode.wfl, z3.And)))
     out.append(('allnz-app: allnz(app(a,b)) == allnz(a) and allnz(b)', lambda: _prove_app_lemma(allnz, z3.And)))
     return out
+
+
+# ---- counterexample decoding: V term in a model -> JSON tree for the replay drivers -------------------
+def decode_expr(m, t, depth=0):
+    v = m.eval(t, model_completion=True)
+    return _decode_val(v, depth)
+
+
+def _decode_list(l, depth):
+    out = []
+    while z3.is_app(l) and l.decl().name() == 'cons' and len(out) < 12:
+        out.append(_decode_val(l.arg(0), depth + 1))
+        l = l.arg(1)
+    return out
+
+
+def _decode_val(v, depth=0):
+    if not z3.is_app(v) or depth > 8:
+        return {'opaque': str(v)[:40]}
+    k = v.decl().name()
+    if k == 'VNone':
+        return None
+    if k == 'VInt':
+        return {'py': 'int', 'value': v.arg(0).as_long() if z3.is_int_value(v.arg(0)) else 0}
+    if k == 'VBool':
+        return {'py': 'bool', 'value': z3.is_true(v.arg(0))}
+    if k == 'VReal':
+        a = v.arg(0)
+        return {'py': 'float', 'value': float(a.as_fraction()) if z3.is_rational_value(a) else 0.0}
+    if k == 'VStr':
+        return {'py': 'str', 'value': v.arg(0).as_string() if z3.is_string_value(v.arg(0)) else ''}
+    if k in ('VList', 'VTuple'):
+        return {'py': 'list' if k == 'VList' else 'tuple', 'items': _decode_list(v.arg(0), depth)}
+    if k.startswith('C_'):
+        cn = k[2:]
+        out = {'cls': cn}
+        for (f, s), a in zip(C[cn].fields, v.children()):
+            if s == 'V':
+                out[f] = _decode_val(a, depth + 1)
+            elif s == 'VL':
+                out[f] = _decode_list(a, depth)
+            elif s == 'Int':
+                out[f] = a.as_long() if z3.is_int_value(a) else 0
+            elif s == 'Str':
+                out[f] = a.as_string() if z3.is_string_value(a) else ''
+            elif s == 'Bool':
+                out[f] = z3.is_true(a)
+            else:
+                out[f] = str(a)
+        return out
+    return {'opaque': str(v)[:40]}
